@@ -116,7 +116,7 @@ class ORSet:
         """Serialize to a plain dict."""
         entries = {}
         for element, tags in self._entries.items():
-            entries[str(element)] = [list(tag) for tag in sorted(tags)]
+            entries[element] = [list(tag) for tag in sorted(tags)]
         return {
             "type": "ORSet",
             "node_id": self._node_id,
